@@ -377,13 +377,15 @@ def gen_run(run_seed: int, tier: str) -> Dict[str, Any]:
     nS, nB = len(battery.STRUCT), len(battery.BUILD)
 
     shape = r_ops.choices(
-        ["concurrent_first", "late_joiner", "single_history", "burst", "shared_user", "big_payload", "churn", "long_life"],
-        weights=[35, 13, 17, 5, 18, 5, 5, 2],
+        ["concurrent_first", "late_joiner", "single_history", "burst", "shared_user", "big_payload", "churn", "long_life", "same_hook"],
+        weights=[32, 12, 16, 5, 17, 5, 5, 2, 6],
     )[0]
     if shape in ("single_history", "burst", "churn", "long_life"):
         n = 1
     elif shape == "big_payload":
         n = r_ops.choice([2, 2, 3])
+    elif shape == "same_hook":
+        n = r_ops.choice([2, 2, 3, 4])
     else:
         n = r_ops.choice([2, 2, 2, 3, 3, 4, 5, 6])
     n_shared = 0
@@ -441,10 +443,21 @@ def gen_run(run_seed: int, tier: str) -> Dict[str, Any]:
         return op
 
     threads: List[List[List[Any]]] = []
+    same_k = [0]
     for t in range(n):
         ops: List[List[Any]] = []
         nslots = 0
-        if shape == "long_life":
+        if shape == "same_hook":
+            # every thread, on its own converter, handles the SAME kind of message at the same time: two
+            # threads inside the same hand-written hook (and whatever it does to process-wide state)
+            if t == 0:
+                same_k[0] = r_ops.choice(battery.BIG) if r_ops.random() < 0.35 else pick_k_small()
+            ops.append(get_op(0, allow_shared=False))
+            for _ in range(r_ops.randint(1, 3)):
+                ops.append(["USE", 0, same_k[0]])
+            ops += use_ops(0, 1)
+            nslots = 1
+        elif shape == "long_life":
             # one converter serves a long session (1 500-2 500 calls) while two others come and go:
             # size-limited caches, counters and "after N uses" paths
             ops.append(get_op(0, allow_shared=False))
